@@ -58,3 +58,9 @@ func VerifRegexpCache() map[string]string {
 	}
 	return out
 }
+
+// VerifBorrowResult takes a Result from the pool of results, the way the validators do for their
+// intermediate results: it is handed back to the pool when it is merged into another Result.
+func VerifBorrowResult() *Result {
+	return pools.poolOfResults.BorrowResult()
+}
